@@ -13,7 +13,17 @@ var words = []string{"alpha", "beta", "gamma", "delta", "foo", "bar", "baz", "qu
 var headingTexts = []string{"a", "A", "a-1", "a_1", "a 1", "", "#", "!!!", "é", "日本", "heading", "heading-1", "1", "a-1-1",
 	"*a*", "`a`", "a  b", "a-b", "A B", "id", "heading-2", "[a](/u)", "a\\*", "&amp;", "-", "_", "a-2", "1-1", "Heading", " a ", "a#"}
 
-func word(r *Rng) string { return pick(r, words) }
+// tricky: strings on which un-escaping, entity resolution or URL escaping is NOT idempotent
+// (doing it twice gives something else than doing it once), so a transformation applied
+// once too often, or cached in the wrong form, becomes visible.
+var tricky = []string{"&amp;amp;", "&amp;lt;b&amp;gt;", "&#38;#35;", "\\\\*", "\\&amp;", "%2520", "&amp;colon;", "a%20b%25", "\\\\\\[", "&#x26;quot;", "x&amp;amp;y=1", "\\%41"}
+
+func word(r *Rng) string {
+	if r.Chance(1, 12) {
+		return pick(r, tricky)
+	}
+	return pick(r, words)
+}
 
 // genTitle: link titles, a share of them with characters the renderer has to escape.
 func genTitle(r *Rng) string {
@@ -38,11 +48,32 @@ var families = []string{"refdef", "refuse", "footnote", "footuse", "heading", "t
 func genFamily(r *Rng, fam string) []byte {
 	var b strings.Builder
 	label := pick(r, []string{"foo", "bar", "Foo", "a b", "1", "^x"})
+	if r.Chance(1, 2) {
+		// short random labels: a small space, so that across the documents of one process
+		// equal labels, labels differing only in case, and labels colliding under simple hash
+		// functions (two letters: 33*c1+c2) all occur
+		const letters = "abcdyzABCDYZ019"
+		n := r.Range(2, 3)
+		lb := make([]byte, n)
+		for i := range lb {
+			lb[i] = letters[r.Intn(len(letters))]
+		}
+		label = string(lb)
+	}
+	use := label // the using side sometimes spells the label in another case
+	if r.Chance(1, 3) {
+		use = strings.ToLower(label)
+	} else if r.Chance(1, 4) {
+		use = strings.ToUpper(label)
+	}
 	switch fam {
 	case "refdef": // definer of link references
-		fmt.Fprintf(&b, "[%s]: /url-%d?a=1&b=%%20 %s\n\n[%s] and [%s][] and ![%s]\n", label, r.Intn(9), genTitle(r), label, label, label)
+		fmt.Fprintf(&b, "[%s]: /url-%d?a=1&b=%%20 %s\n\n[%s] and [%s][] and ![%s]\n", label, r.Intn(9), genTitle(r), use, label, use)
+		if r.Chance(1, 2) {
+			fmt.Fprintf(&b, "\n[t%d]: /%s '%s'\n\n[t%d] ![t%d]\n", r.Intn(3), pick(r, tricky), pick(r, tricky), r.Intn(3), r.Intn(3))
+		}
 	case "refuse": // user of (undefined here) link references
-		fmt.Fprintf(&b, "[%s] and [%s][] and ![%s] and [text][%s]\n", label, label, label, label)
+		fmt.Fprintf(&b, "[%s] and [%s][] and ![%s] and [text][%s]\n", use, label, use, label)
 	case "footnote":
 		n := pick(r, []string{"1", "note", "a"})
 		fmt.Fprintf(&b, "%s[^%s] and again[^%s]\n\n[^%s]: %s\n", sentence(r, 2), n, n, n, sentence(r, 3))
@@ -134,7 +165,7 @@ func genFamily(r *Rng, fam string) []byte {
 	case "quote":
 		fmt.Fprintf(&b, "> %s\n> > %s\nlazy %s\n\n> - %s\n", word(r), word(r), word(r), word(r))
 	case "link":
-		fmt.Fprintf(&b, "[%s](/u %s) ![i](/p.png %s) <http://%s.com> [a [b] c](</u v>)\n", word(r), genTitle(r), genTitle(r), word(r))
+		fmt.Fprintf(&b, "[%s](/u/%s %s) ![i](/p.png?%s %s) <http://%s.com> [a [b] c](</u v>) [t](<%s>)\n", word(r), pick(r, tricky), genTitle(r), pick(r, tricky), genTitle(r), word(r), pick(r, tricky))
 	default:
 		fmt.Fprintf(&b, "%s\n%s\n", sentence(r, r.Range(1, 6)), sentence(r, 2))
 	}
@@ -215,6 +246,14 @@ func genLeakPair(r *Rng) ([]byte, []byte) {
 	if r.Chance(1, 12) {
 		return genLong(r), []byte(pick(r, longFollowers))
 	}
+	if r.Chance(1, 10) {
+		a, b := genLeakPair0(r)
+		return byteLevel(r, a), byteLevel(r, b)
+	}
+	return genLeakPair0(r)
+}
+
+func genLeakPair0(r *Rng) ([]byte, []byte) {
 	p := pick(r, leakPairs)
 	// Same sub-stream for both halves in half of the cases, so that both use the same
 	// labels / heading texts / footnote names.
@@ -241,6 +280,21 @@ func genHeadingDoc(r *Rng) []byte {
 		}
 	}
 	n := r.Range(1, 8)
+	if r.Chance(1, 10) {
+		n = r.Range(20, 70) // many headings: id tables grow and rehash, suffixes reach two digits
+	}
+	if r.Chance(1, 5) {
+		// long heading texts (slugs of 64, 128, 256+ bytes) that are equal or differ only late
+		base := sentence(r, pick(r, []int{10, 14, 24, 40, 70}))
+		if r.Chance(1, 3) {
+			base += " [link](http://example.com/a/rather/long/path/to/" + word(r) + ")"
+		}
+		pool = append([]string{}, pool...)
+		pool = append(pool, base, base, base+" "+word(r), base+"-1", base[:len(base)-1])
+		if r.Chance(1, 2) {
+			pool = pool[len(pool)-5:]
+		}
+	}
 	for i := 0; i < n; i++ {
 		t := pick(r, pool)
 		level := r.Range(1, 6)
@@ -358,8 +412,42 @@ func genAnyDoc(r *Rng, c *Corpus) []byte {
 	case 4:
 		return genHeadingDoc(r)
 	default:
-		return genFamily(r, pick(r, families))
+		return byteLevel(r, genFamily(r, pick(r, families)))
 	}
+}
+
+// byteLevel: now and then the same document in an unusual byte-level dress — a UTF-8 byte
+// order mark in front, CRLF line ends, no final newline, a NUL or an invalid UTF-8 byte
+// inside, leading blank lines, trailing spaces/tabs.
+func byteLevel(r *Rng, d []byte) []byte {
+	if !r.Chance(1, 8) {
+		return d
+	}
+	switch r.Intn(8) {
+	case 0:
+		return append([]byte("\xef\xbb\xbf"), d...)
+	case 1:
+		return bytes.ReplaceAll(d, []byte("\n"), []byte("\r\n"))
+	case 2:
+		return bytes.TrimRight(d, "\n")
+	case 3:
+		if len(d) > 0 {
+			i := r.Intn(len(d))
+			return append(append(append([]byte{}, d[:i]...), 0), d[i:]...)
+		}
+	case 4:
+		if len(d) > 0 {
+			i := r.Intn(len(d))
+			return append(append(append([]byte{}, d[:i]...), 0xc3), d[i:]...)
+		}
+	case 5:
+		return append([]byte("\n\n \n"), d...)
+	case 6:
+		return bytes.ReplaceAll(d, []byte("\n"), []byte(" \t\n"))
+	default:
+		return append(append([]byte("\xef\xbb\xbf"), d...), "\n\xef\xbb\xbf# bom\n"...)
+	}
+	return d
 }
 
 // herd: k documents of the same construct family with different parameters.
